@@ -13,6 +13,7 @@ Line-protocol driver for C08 (RLP).  Ops (see harness/cmd/c08/main.go):
   stream <auto|lim<k>|unl> <hex> <op,op,…> a script of Stream method calls, error-exact, + bytes consumed
   dec <type> <hex>                         typed DecodeBytes (pure model `decodeTy`), ok/err + value
   enc <type> <value>                       typed EncodeToBytes (`encT`)
+  hist <order> <elem> <value> <hex> <hex>   plain/tail slice coders of fresh types in a given order (type-cache history)
   api <step;step;…>                        a session of API calls on shared library state (see `apiStep`)
   encbuf <value>                           EncodeToBytes of a []byte/[]interface{} tree through the encbuf model (`encodeViaBuf`)
 
@@ -331,6 +332,23 @@ def apiStep (ss : Sess) (st : String) : Option (String × Sess) :=
       | some (rs, s) => some ("|".intercalate rs ++ "|c=" ++ toString s.consumed, ss)
       | none => none
     | _, _ => none
+  | ["fx", k] =>
+    if k == "neg" ∨ k == "int" ∨ k == "chan" then some ("!", ss) else none
+  | ["wf", n, t, v] =>
+    match natOf? n, tyOf? t, valOf? v with
+    | some k, some ty, some val =>
+      match encT ty val with
+      | .ok b =>
+        if b.length ≤ k then some (toHex b, { ss with kept := ss.kept ++ [toHex b] }) else some ("!p", ss)
+      | .error _ => some ("!", ss)
+    | _, _, _ => none
+  | ["rf", n, t, h] =>
+    match natOf? n, tyOf? t, ofHex? h with
+    | some k, some ty, some b =>
+      match decT (typedFuel ty b) ty b with
+      | .ok (v, rest) => if b.length - rest.length ≤ k then some ("ok " ++ showVal v, ss) else some ("err", ss)
+      | .error _ => some ("err", ss)
+    | _, _, _ => none
   | ["chk"] => some (",".intercalate ss.kept, ss)
   | _ => none
 
@@ -389,6 +407,17 @@ def step (_ : Unit) (line : String) : Unit × String :=
         | some it => "ok " ++ toHex (encodeViaBuf it)
         | none => "bad-op"
       | none => "bad-op"
+    | ["hist", order, t, v, ph, th] =>
+      match tyOf? t, valOf? v, ofHex? ph, ofHex? th with
+      | some e, some val, some pb, some tb =>
+        if order.length != 4 then "bad-op" else
+        let plainTy : Ty := .slice (.struct [(.none, e)])
+        let tailTy : Ty := .struct [(.none, .uint 64), (.tail, plainTy)]
+        resCoarse ((encT plainTy val).map toHex) ++ ";" ++
+        resCoarse ((encT tailTy (.list [.num 7, val])).map toHex) ++ ";" ++
+        resCoarse ((decodeTy plainTy pb).map showVal) ++ ";" ++
+        resCoarse ((decodeTy tailTy tb).map showVal)
+      | _, _, _, _ => "bad-op"
     | ["api", script] =>
       match runApi { readers := [], kept := [] } (script.splitOn ";") [] with
       | some rs => ";".intercalate rs
